@@ -4,7 +4,8 @@ Specification: spec/MacroProc.tla (machine side shaped like as.c / asmsub.c / as
 side ExpandDecl = the manual's textual substitution carried out by hand), program families spec/MacroProg.tla.
 
 (M) MacroProc_MC: every program of the nesting family (bodies  label? construct? statement?,  nesting <= 2 quick /
-    3 thorough (87 k programs; the as-coded instance uses nesting 2 with the rich profile), counts {0,2}, loops REPT/IRP/IRPC/WHILE (+IRPN, GLOBALSYMBOLS in the rich profile), macros with
+    3 thorough (two instances: counts {0,2} with statements after the nested construct, count 2 with a label before
+    it; the as-coded instance uses nesting 2 with the rich profile), counts {0,2}, loops REPT/IRP/IRPC/WHILE (+IRPN, GLOBALSYMBOLS in the rich profile), macros with
     0..2 parameters, default, empty and excess arguments) and of the focused families (binding shapes, SHIFT
     recursion, EXITM in IF, label privacy, INCLUDE nesting, adjacent \\a\\\\b\\ parameters) is run line by line;
     TLC checks  delivered = ExpandDecl(program), label privacy, balance of tag / symbol-space / IF stacks.
@@ -68,13 +69,15 @@ def _cfg(name, text):
     return path
 
 
-def mc_cfg(tier, fixed):
+def mc_cfg(tier, fixed, variant=0):
     if tier == "quick":
         c = "MaxD = 2 Cnts = {0, 2} NPre = 1 NPost = 1 Rich = FALSE Focus = TRUE"
+    elif fixed and variant == 0:
+        c = "MaxD = 3 Cnts = {0, 2} NPre = 0 NPost = 1 Rich = FALSE Focus = TRUE"       # 3 levels, parameter uses
     elif fixed:
-        c = "MaxD = 3 Cnts = {0, 2} NPre = 1 NPost = 1 Rich = FALSE Focus = TRUE"       # 87 k programs
+        c = "MaxD = 3 Cnts = {2} NPre = 1 NPost = 1 Rich = FALSE Focus = FALSE"         # 3 levels, labels and uses
     else:
-        c = "MaxD = 2 Cnts = {0, 2} NPre = 1 NPost = 1 Rich = TRUE Focus = TRUE"        # 16 k programs
+        c = "MaxD = 2 Cnts = {0, 2} NPre = 1 NPost = 1 Rich = TRUE Focus = TRUE"        # code as it is, rich profile
     inv = "Transparent Private Balanced NoDevWhenFixed TagsOK" if fixed else "TransparentUnlessDev Private Balanced TagsOK"
     return ("CONSTANTS Fixed = %s HasAttrs = FALSE MaxNum = 99\n          %s\nSPECIFICATION Spec\nINVARIANTS %s\n"
             "CHECK_DEADLOCK FALSE\n" % (FIXED_ALL if fixed else "{}", c, inv))
@@ -209,23 +212,25 @@ def main(tier):
     # ---- TLC runs: (M) two instances of the model check, (G) one generator run per family ------------------
     tasks = [("mc_fixed", "MacroProc_MC", _cfg("_c11_mc_fixed.cfg", mc_cfg(tier, True))),
              ("mc_coded", "MacroProc_MC", _cfg("_c11_mc_coded.cfg", mc_cfg(tier, False)))]
+    if tier == "thorough":
+        tasks.append(("mc_fixed_labels", "MacroProc_MC", _cfg("_c11_mc_fixed2.cfg", mc_cfg(tier, True, 1))))
     for f in fams:
         tasks.append(("gen_" + f, "MacroProc_Gen", _cfg("_c11_gen_%s.cfg" % f, gen_cfg(f, tier))))
-    big = {"nest2", "nest3", "nest2q", "bind", "mc_fixed", "mc_coded"}
+    big = {"nest2", "nest3", "nest2q", "bind", "mc_fixed", "mc_coded", "mc_fixed_labels"}
 
     def run(t):
         name, mod, cfg = t
-        w = (6 if (tier == "thorough" and name == "mc_fixed") else 3) if name.replace("gen_", "") in big else 1
+        w = (6 if (tier == "thorough" and name == "mc_fixed_labels") else 3) if name.replace("gen_", "") in big else 1
         r = tlc.run(mod, cfg, workers=w, timeout=2400, mem="6g", tags=("OUT",), collect=name.startswith("gen_"))
         return name, r
     with Phase("TLC: 2 model checks + %d generator families" % len(fams)):
         results = dict(pmap(run, tasks, workers=5))
     log("[tlc] " + " ".join("%s=%.0fs" % (n, r.wall) for n, r in results.items()))
-    for name in ("mc_fixed", "mc_coded"):
+    for name in [t[0] for t in tasks if t[0].startswith("mc_")]:
         r = tlc.must(results[name], name)
         if r.violation:
             raise CheckError("the MacroProc design itself violates its invariants (%s): %s" % (name, r.violation[:800]))
-        rep.model("MacroProc_MC(%s,%s)" % (tier, "Fixed=all" if name == "mc_fixed" else "Fixed={}"), r)
+        rep.model("MacroProc_MC(%s,%s,%s)" % (tier, name, "Fixed={}" if name == "mc_coded" else "Fixed=all"), r)
     outs = []
     for f in fams:
         r = tlc.must(results["gen_" + f], "MacroProc_Gen(%s)" % f)
